@@ -35,6 +35,10 @@ DOCUMENTED = {
     ("cwt::ClaimsSetBuilder::private_claim", PANIC): "non-private claim id",
 }
 
+# fields of a decoded value whose absence / shortness a follow-up helper may refuse (property C01: 'for an in-range signer
+# index, and with a payload or ciphertext present where the helper documents that it needs one')
+REFUSABLE_FIELDS = {"payload", "ciphertext", "signatures"}
+
 INVARIANT = {
     ("<common::Label as core::cmp::Ord>::cmp", PANIC): "I-signum",
     ("common::Label::cmp_canonical", UNWRAP_R): "I-label-enc",
